@@ -130,6 +130,17 @@ CHECKS = {
              'signatures are discovered by running the real evaluation functions on a small input family. Byte-level JSON is '
              'outside; the W-test result (test_distribution is the string "normal") is outside the numeric claim.',
         ref='DESIGN.md 4/C18'),
+    'C20': dict(
+        text='Bounded relational symbolic model checking: the same real code is executed twice in one exploration, on an input and '
+             'on a re-ordered copy, and z3 decides that the outcomes cannot differ: gridding functions and target_event_rates on '
+             'N=2 (3) symbolic events vs a symbolic permutation of them; public T / W / binary-T tests (N=3, permutation cubes); '
+             'all simulation-based and number tests with the same seed (draws are a function of seed and draw index) - identical '
+             'outputs; catalog-based tests on a CatalogForecast vs the forecast with its synthetic catalogs permuted (statistic, '
+             'quantile, expected rates identical, distribution equal as a multiset); a lattice built row-major vs shuffled with '
+             'consistently permuted symbolic rates (lookups, gridded counts, N/L/S observed statistics).',
+        note='Trusted: z3; abstract regions / event-list observation stubs for the event-order jobs; bin1d_vec replaced by its '
+             'exact half-open contract (decided in C01/C02) in the cell-order job; equality over the reals ("to rounding").',
+        ref='DESIGN.md 4/C20'),
     'C16': dict(
         text='Bounded symbolic model checking in extended reals with uninterpreted exp/log and the Poisson-cdf contract: binary '
              'log-likelihood and Brier score against their definitions for symbolic rates (zeros allowed) and counts, activity-only '
